@@ -434,6 +434,29 @@ func c14MapOrder(c *Case) {
 			}
 		}
 	}
+	// the map is an input of CompileWithNS, not of the compiled expression: the caller may re-bind or delete a prefix
+	// in the SAME map object afterwards (to compile the next expression) without changing what the first one selects
+	if !strings.Contains(src, "//x") {
+		live := map[string]string{"p": "urn:a", "q": "urn:b"}
+		rc := xref.NewCtx(d.Root)
+		rc.NS, rc.UseNS = map[string]string{"p": "urn:a", "q": "urn:b"}, true
+		want, _ := xref.SafeEval(ast, rc)
+		ce, err := safeCompileNS(src, live)
+		if err != nil || ce == nil {
+			c.Violation("BOUND-PREFIXES-REJECTED", map[string]interface{}{"expr": src, "map": fmt.Sprint(live), "error": fmt.Sprint(err)})
+			return
+		}
+		for step, mutate := range []func(){func() {}, func() { live["p"] = "urn:b" }, func() { live["q"] = "urn:c"; safeCompileNS(src, live) }, func() { delete(live, "p") }, func() { delete(live, "q"); live["z"] = "urn:a" }} {
+			mutate()
+			got := c.RunEvaluate(ce, d.Root)
+			c.Count("maporder:map-modified-after-compile")
+			if !sameValue(got, want) {
+				c.Violation("NAME-TEST-BY-URI", map[string]interface{}{"expr": src, "map_when_compiled": "map[p:urn:a q:urn:b]", "map_now": fmt.Sprint(live), "step": step, "doc": d.XML(), "expected": fmtValue(want), "observed": got.String(),
+					"note": "the caller changed the map object after CompileWithNS had returned"})
+				return
+			}
+		}
+	}
 	c.Nontrivial(fmt.Sprintf("maporder|%s|%d", src, c.Index))
 	c.SampleEvery(11, func() interface{} {
 		return map[string]interface{}{"family": "maporder", "expr": src, "maps": len(c14MoMaps)}
